@@ -60,8 +60,13 @@ def main():
             meta['tests_summary'] = t.stdout.strip().split('\n')[-1]
             t0 = time.time()
             env = dict(os.environ, PYVC_EVIDENCE_DIR=scratch)
+            # run the checks from the COMMITTED state of /verif, so that edits
+            # in progress there cannot disturb an evaluation
+            snap = os.path.join(scratch, 'verif')
+            os.makedirs(snap)
+            sh('git -C %s archive HEAD | tar -x -C %s' % (HERE, snap))
             c = sh(['python3-vt', '-m', 'pyvc', 'check', prop, '--repo', mut],
-                   cwd=HERE, env=env, timeout=3600)
+                   cwd=snap, env=env, timeout=3600)
             meta['check_exit'] = c.returncode
             meta['check_seconds'] = round(time.time() - t0, 1)
             meta['check_violations'] = [l.replace(scratch, '<scratch>') for l in
